@@ -47,6 +47,23 @@ def f64_words(rng, n):
     return out.view("<f8")
 
 
+def storage(rng, a):
+    """the same values held the way a caller's array may be: other byte order, wider float, Fortran order, strided view.
+    Constructors keep the array they are given; what is written must not depend on how the values are stored."""
+    r = rng.random()
+    if r < 0.70 or a.size == 0:
+        return a
+    if r < 0.82:
+        return a.astype(a.dtype.newbyteorder(">"))
+    if r < 0.90 and a.dtype.kind == "f" and a.dtype.itemsize == 4:
+        return a.astype("<f8")
+    if r < 0.95 and a.ndim == 2:
+        return np.asfortranarray(a)
+    big = np.zeros((a.shape[0] * 2,) + a.shape[1:], dtype=a.dtype)
+    big[::2] = a
+    return big[::2]
+
+
 def f32_scalar(rng):
     return float(f32_words(rng, 1)[0])
 
@@ -69,7 +86,7 @@ def gapped(rng, n, width, m):
     for f, present in enumerate(m):
         if not present:
             a[f] = np.nan
-    return a
+    return storage(rng, a)
 
 
 # ----------------------------------------------------------------------------- items
@@ -97,7 +114,7 @@ def plat_data(rng, n, m=None):
 
 def plat_info(rng, lab=None):
     from basictdf.tdfForcePlatformsCalibration import ForcePlatformInfo
-    return ForcePlatformInfo(label(rng) if lab is None else lab, f32_words(rng, 2).copy(), f32_words(rng, 12).reshape(4, 3).copy())
+    return ForcePlatformInfo(label(rng) if lab is None else lab, storage(rng, f32_words(rng, 2).copy()), storage(rng, f32_words(rng, 12).reshape(4, 3).copy()))
 
 
 def viewport(rng, kind=None):
@@ -113,7 +130,7 @@ def viewport(rng, kind=None):
 
 def seelab_cam(rng):
     from basictdf.tdfCalibrationData import SeelabCameraData
-    return SeelabCameraData(f64_words(rng, 9).reshape(3, 3).copy(), f64_words(rng, 3).copy(), f64_words(rng, 2).copy(),
+    return SeelabCameraData(storage(rng, f64_words(rng, 9).reshape(3, 3).copy()), storage(rng, f64_words(rng, 3).copy()), f64_words(rng, 2).copy(),
                             f64_words(rng, 2).copy(), f64_words(rng, 2).copy(), f64_words(rng, 2).copy(),
                             f64_words(rng, 2).copy(), viewport(rng))
 
@@ -121,8 +138,8 @@ def seelab_cam(rng):
 def bts_cam(rng, ncoef=None):
     from basictdf.tdfCalibrationData import BTSCameraData
     nx, ny = (ncoef, ncoef) if ncoef is not None else rng.choice([(70, 70), (70, 70), (5, 3), (0, 70), (69, 1)])
-    return BTSCameraData(f64_words(rng, 9).reshape(3, 3).copy(), f64_words(rng, 3).copy(), f64_words(rng, 2).copy(),
-                         f64_words(rng, 2).copy(), f64_words(rng, nx).copy(), f64_words(rng, ny).copy(), viewport(rng))
+    return BTSCameraData(storage(rng, f64_words(rng, 9).reshape(3, 3).copy()), storage(rng, f64_words(rng, 3).copy()), f64_words(rng, 2).copy(),
+                         f64_words(rng, 2).copy(), storage(rng, f64_words(rng, nx).copy()), storage(rng, f64_words(rng, ny).copy()), viewport(rng))
 
 
 def opt_channel(rng):
@@ -154,7 +171,7 @@ def _free_channel(rng, used, lo):
 
 
 def _geom(rng):
-    return f32_words(rng, 3).copy(), f32_words(rng, 9).reshape(3, 3).copy(), f32_words(rng, 3).copy()
+    return storage(rng, f32_words(rng, 3).copy()), storage(rng, f32_words(rng, 9).reshape(3, 3).copy()), storage(rng, f32_words(rng, 3).copy())
 
 
 def data3d(rng, ntracks=None, n=None, fmt=None, nlinks=None, masks=None):
